@@ -82,7 +82,19 @@ enum Usage {
     UnknownFlag,
 }
 
+#[derive(Clone, Copy, Debug, PartialEq, Eq)]
+enum FileVia {
+    /// a regular file
+    Plain,
+    /// a symbolic link to the regular file
+    Symlink,
+    /// FILE is /dev/stdin and the program text arrives through a pipe
+    /// (readable, but not a regular file; as with process substitution)
+    DevStdinPipe,
+}
+
 struct WorldSpec {
+    file_via: FileVia,
     sub: Sub,
     usage: Usage,
     source_kind: &'static str,
@@ -115,7 +127,7 @@ fn gen_world(t: &mut Tape) -> WorldSpec {
         3 => Usage::SurplusArgument,
         _ => Usage::UnknownFlag,
     };
-    let (source_kind, mut source, mut stdin, loop_free): (&'static str, Vec<u8>, Vec<u8>, bool) =
+    let (mut source_kind, mut source, mut stdin, mut loop_free): (&'static str, Vec<u8>, Vec<u8>, bool) =
         match t.weighted(&[5, 3, 2, 2]) {
             0 => {
                 let sc = crate::c08::gen_scenario(t);
@@ -147,6 +159,23 @@ fn gen_world(t: &mut Tape) -> WorldSpec {
                 ("parse error on a chosen line", lines.concat().into_bytes(), sc.input, false)
             }
         };
+    // occasionally a bulk world: a program that consumes all of a standard
+    // input larger than any pipe or stdio buffer
+    if t.chance(1, 20) {
+        source_kind = "corpus";
+        loop_free = false;
+        source = (*t.pick(&[
+            "Listen to the line\nUntil the line is empty\nSay the line\nListen to the line\n\nSay \"done\"\n",
+            "Counter is 0\nListen to the line\nWhile the line ain't empty\nBuild Counter up\nListen to the line\n\nSay Counter\n",
+        ]))
+        .as_bytes()
+        .to_vec();
+        stdin.clear();
+        let n = 2500 + t.draw(4000) as usize;
+        for i in 0..n {
+            stdin.extend_from_slice(format!("bulk line number {} of the large input\n", i).as_bytes());
+        }
+    }
     // occasionally a large stdin (exceeds the pipe buffer)
     if t.chance(1, 25) {
         let n = 3000 + t.draw(3000) as usize;
@@ -212,7 +241,22 @@ fn gen_world(t: &mut Tape) -> WorldSpec {
         }
     }
     let hash_seed = t.draw(1 << 20) as u64;
+    let mut file_via = FileVia::Plain;
+    if usage == Usage::Normal && matches!(fault, FileFault::None | FileFault::Empty | FileFault::TruncatedAt(_)) {
+        match t.weighted(&[12, 1, 1]) {
+            0 => {}
+            1 => file_via = FileVia::Symlink,
+            _ => {
+                file_via = FileVia::DevStdinPipe;
+                // the program text uses up standard input
+                stdin.clear();
+                stdin_not_utf8 = false;
+            }
+        }
+    }
+    let stdin_kind = if file_via == FileVia::DevStdinPipe { StdinKind::Pipe } else { stdin_kind };
     WorldSpec {
+        file_via,
         sub,
         usage,
         source_kind,
@@ -507,8 +551,8 @@ impl Property for C20 {
                 shrink_budget: 300,
             },
             Tier::Thorough => Plan {
-                scenarios: 40_000,
-                time_cap_s: 900,
+                scenarios: 400_000,
+                time_cap_s: 600,
                 shrink_budget: 600,
             },
         }
@@ -565,7 +609,15 @@ impl Property for C20 {
             match w.fault {
                 FileFault::Missing => {}
                 FileFault::IsDirectory => std::fs::create_dir_all(&path)?,
-                _ => std::fs::write(&path, &w.source)?,
+                _ => {
+                    if w.file_via == FileVia::Symlink {
+                        let real = scratch.path.join("the-real-file.rock");
+                        std::fs::write(&real, &w.source)?;
+                        std::os::unix::fs::symlink(&real, &path)?;
+                    } else {
+                        std::fs::write(&path, &w.source)?
+                    }
+                }
             }
             Ok(())
         })();
@@ -573,7 +625,9 @@ impl Property for C20 {
             eprintln!("HARNESS ERROR: cannot set up world: {}", e);
             std::process::exit(2);
         }
-        let file_arg = if w.relative_path {
+        let file_arg = if w.file_via == FileVia::DevStdinPipe {
+            "/dev/stdin".to_string()
+        } else if w.relative_path {
             // a leading dash would be taken for a flag: use ./ as a user would
             if w.file_name.starts_with('-') {
                 format!("./{}", w.file_name)
@@ -596,7 +650,11 @@ impl Property for C20 {
             args: args.clone(),
             env,
             cwd: scratch.path.clone(),
-            stdin: w.stdin.clone(),
+            stdin: if w.file_via == FileVia::DevStdinPipe {
+                w.source.clone()
+            } else {
+                w.stdin.clone()
+            },
             stdin_kind: w.stdin_kind,
             shared_out_err: false,
         };
@@ -653,6 +711,11 @@ impl Property for C20 {
             }
             Ok(LibRef::Tree(_)) => stats.inc("probe.tree_printed"),
         }
+        if let Ok(LibRef::Exec { out, .. }) = &lib {
+            if out.len() > 65536 || (w.stdin.len() > 65536 && out.len() > 1000) {
+                stats.inc("probe.program_consumed_more_than_64KiB_of_stdin_or_wrote_more_than_64KiB");
+            }
+        }
         if w.stdin.len() > 65536 && w.stdin_kind == StdinKind::Pipe {
             stats.inc("probe.stdin_larger_than_pipe_buffer_through_pipe");
         }
@@ -670,6 +733,7 @@ impl Property for C20 {
             stats.inc("probe.non_ascii_path");
         }
         stats.inc(&format!("count.stdin_kind.{:?}", w.stdin_kind));
+        stats.inc(&format!("count.file_via.{:?}", w.file_via));
         let _ = w.loop_free;
 
         let obs_hash = {
@@ -695,6 +759,7 @@ impl Property for C20 {
                 ("argv", J::A(args.iter().map(|a| J::s(a.clone())).collect())),
                 ("environment", J::A(spec.env.iter().map(|(k, v)| J::s(format!("{}={}", k, v))).collect())),
                 ("file_fault", J::s(format!("{:?}", w.fault))),
+                ("file_reached_via", J::s(format!("{:?}", w.file_via))),
                 ("source_kind", J::s(w.source_kind)),
                 ("file_contents", J::S(render_bytes(&w.source))),
                 ("stdin_kind", J::s(format!("{:?}", w.stdin_kind))),
